@@ -123,15 +123,14 @@ Proof. vm_compute. split; reflexivity. Qed.
 (* (c) CleanedAbs fails inside cleanedRelativePath: log.Fatalf, the process exits *)
 Lemma leftover_3 : leftover_at 8 XFatal.
 Proof. leftover. Qed.
-(* (d) ConfirmDir fails inside localizeRoot: log.Panicf *)
-Lemma leftover_4 : leftover_at 19 XPanic.
-Proof. leftover. Qed.
+(* (d) ConfirmDir fails inside localizeRoot: log.Panicf — repaired in /repo by 113a8f3 (deferred
+   recover in Run): the panic is still raised, but the destination is cleaned up first *)
+Example repaired_d :
+  snd (ex_run (Some 19)) = OExn XPanic /\ exists_path (w_fs (fst (ex_run (Some 19)))) ex_nd = false.
+Proof. vm_compute. split; reflexivity. Qed.
 
 Lemma all_or_nothing_refuted_3 : exists i, leftover_at i XFatal.
 Proof. exists 8. exact leftover_3. Qed.
-Lemma all_or_nothing_refuted_4 : exists i, leftover_at i XPanic.
-Proof. exists 19. exact leftover_4. Qed.
-
 Lemma all_or_nothing_law_false : ~ all_or_nothing_law.
 Proof. exact (leftover_refutes _ _ leftover_3). Qed.
 
@@ -151,6 +150,8 @@ Proof. vm_compute. repeat split; reflexivity. Qed.
 Example ex_partial_hyps :
   exists_path ex_fs ex_nd = false /\
   snd (ex_run (Some 12)) = OExn XErr /\
+  snd (ex_run (Some 19)) = OExn XPanic /\
+  removes_okb (w_trace (fst (ex_run (Some 19)))) = true /\
   removes_okb (w_trace (fst (ex_run (Some 12)))) = true /\
   removes_okb (w_trace (fst (ex_run (Some 4)))) = true /\
   removes_okb (w_trace (fst (ex_run (Some 5)))) = true /\
@@ -224,18 +225,10 @@ Example ex2_success :
   lookup ["new"; "t"; "charts"; "app"; "crds"] (w_fs (fst (ex2_run None))) = Some EDir.
 Proof. vm_compute. repeat split; reflexivity. Qed.
 
-(* (e) ConfirmDir fails inside copyChartHome: log.Panicf, the partial copy stays *)
-Lemma leftover_5 :
-  fs_wf ex2_fs /\
-  exists_path ex2_fs ex_nd = false /\
-  snd (ex2_run (Some 25)) = OExn XPanic /\
-  (forall e, In e (w_trace (fst (ex2_run (Some 25)))) -> ev_op e = ORemoveAll -> ev_ok e = true) /\
-  exists_path (w_fs (fst (ex2_run (Some 25)))) ex_nd = true.
-Proof.
-  split; [apply fs_wfb_spec; vm_compute; reflexivity|]. split; [vm_compute; reflexivity|].
-  split; [vm_compute; reflexivity|]. split; [apply removes_okb_spec; vm_compute; reflexivity|].
-  vm_compute; reflexivity.
-Qed.
+(* (e) ConfirmDir fails inside copyChartHome: log.Panicf — repaired by 113a8f3 as well *)
+Example repaired_e :
+  snd (ex2_run (Some 25)) = OExn XPanic /\ exists_path (w_fs (fst (ex2_run (Some 25)))) ex_nd = false.
+Proof. vm_compute. split; reflexivity. Qed.
 
 (* corpus/C18/helm-values-inside-home.json: the values file lives inside the chart home *)
 Definition ex3_kust : kust :=
